@@ -132,7 +132,7 @@ def check_C09(tier):
     prop = "C09"
     wd = vlib.workdir(prop)
     v = vlib.Verdict(prop, ["C09", "C01C02", "C03", "C05", "C06", "C07", "C11", "C13", "C04", "C15", "C17", "C16",
-                            "C18", "C08", "C14"])
+                            "C18", "C08", "C14", "C07C08", "C07C14", "C04C05"])
     cov = new_cov("call sequences generated by TLC from MQAbsGen (exhaustive to the stated depth per handle family, "
                   "plus -simulate walks over capacities 0..9); each is executed on the real crate and its trace "
                   "validated against MQAbsTrace; distinct_nontrivial = distinct recorded API traces")
@@ -149,6 +149,17 @@ def check_C09(tier):
         gens.append(dict(family=fam, fut=fut, cap=cap, depth=wdepth, ops=alphabet(fam, fut),
                          simulate=(nwalk, wdepth), max_senders=4, max_streams=4, max_hps=3))
     sequential_stage(prop, wd, gens, v, cov)
+    # hand-written single-threaded histories that start with the epoch-change signal pending
+    base = []
+    for (fam, fut) in FAMILIES:
+        base += sc.no_receivers("C09n", fam, caps=(1,), fut=fut) + sc.traffic("C09t", fam, fut=fut, caps=(1,))[:2]
+    seqs = []
+    for s_ in sc.with_epoch_pending(base):
+        flat = [op for ph in s_["phases"] for th in ph for op in th]
+        s2 = dict(s_)
+        s2["phases"] = [[flat]]
+        seqs.append(s2)
+    concurrent_stage(prop, wd, seqs, v, cov, [("default", 1, 0)], label="epochseq")
     rc = v.finish()
     vlib.write_evidence(prop, tier, "model_checking", cov, time.time() - t0, len(v.violations),
                         ASSUME_COMMON + ["sequence depth / walk length as stated in coverage.rule"])
@@ -290,7 +301,7 @@ def impl_model_stage(prefixes, expect_fail=()):
     return stage
 
 
-def plans_for(tier, dfs_cap_quick=600, dfs_cap_thorough=20000, rnd_quick=150, rnd_thorough=3000):
+def plans_for(tier, dfs_cap_quick=1200, dfs_cap_thorough=20000, rnd_quick=150, rnd_thorough=3000):
     if tier == "quick":
         return [("dfs", dfs_cap_quick, 2), ("random", rnd_quick, 0), ("pct", rnd_quick, 0)]
     return [("dfs", dfs_cap_thorough, 3), ("random", rnd_thorough, 0), ("pct", rnd_thorough, 0)]
@@ -388,11 +399,11 @@ def check_C04(tier):
               (1, [2, 1], 3, "recv", False, 1), (2, [2], 2, "recv", False, 2)]
     scns = (sc.traffic("C04", "bcast", caps=caps, shapes=shapes) + sc.traffic("C04", "mpmc", caps=caps, shapes=shapes) +
             sc.uni_traffic("C04", "bcast", caps=caps) + sc.uni_traffic("C04", "mpmc", caps=caps) +
-            sc.population("C04p", "bcast", caps=caps[:2]))
-    return generic_check("C04", tier, ["C04"], scns, plans_for(tier), RULE_CONC +
+            sc.population("C04p", "bcast", caps=caps[:2]) + sc.deep_shared("C04x"))
+    return generic_check("C04", tier, ["C04", "C04C05"], scns, plans_for(tier), RULE_CONC +
                          "; the payload's Clone and the view closure contain a scheduling point, so the real code is "
                          "interleaved inside the clone/view" + RULE_IMPL,
-                         models=[impl_model_stage(["spmc_b", "disc_b", "view", "bcast2"])])
+                         models=[impl_model_stage(["spmc_b", "disc_b", "view", "bcast2", "sibdrop_b"])])
 
 
 def check_C05(tier):
@@ -406,7 +417,7 @@ def check_C05(tier):
     for (fam, fut) in FAMILIES:
         gens.append(dict(family=fam, fut=fut, cap=1 if fam == "mpmc" else 2, depth=depth,
                          ops=[o for o in alphabet(fam, fut) if o not in ("brecv", "bview", "poll_complete")]))
-    return generic_check("C05", tier, ["C05"], scns, plans_for(tier), RULE_CONC +
+    return generic_check("C05", tier, ["C05", "C04C05"], scns, plans_for(tier), RULE_CONC +
                          "; plus all sequential histories to the depth bound generated from MQAbsGen (teardown in "
                          "every order: whatever is alive at the end is dropped with the ledger recording)", gens=gens)
 
@@ -427,8 +438,8 @@ def check_C07(tier):
     scns = (sc.disconnect("C07", "bcast", caps=caps) + sc.disconnect("C07", "mpmc", caps=caps) +
             sc.disconnect("C07", "bcast", caps=caps[:2], fut=True) + sc.disconnect("C07", "mpmc", caps=caps[:1], fut=True) +
             sc.blocking("C07b", "bcast", caps=caps[:1], waits=("busy", "block00")))
-    return generic_check("C07", tier, ["C07"], scns, plans_for(tier), RULE_CONC + RULE_IMPL,
-                         models=[impl_model_stage(["disc", "blockdisc"])])
+    return generic_check("C07", tier, ["C07", "C07C08", "C07C14"], scns, plans_for(tier), RULE_CONC + RULE_IMPL,
+                         models=[impl_model_stage(["disc", "blockdisc", "sibdrop"])])
 
 
 def check_C08(tier):
@@ -438,7 +449,7 @@ def check_C08(tier):
     scns = sc.blocking("C08", "bcast", caps=caps, waits=waits) + sc.blocking("C08", "mpmc", caps=caps, waits=waits)
     for s in scns:
         s["livelock"] = 3000
-    return generic_check("C08", tier, ["C08"], scns, plans_for(tier), RULE_CONC +
+    return generic_check("C08", tier, ["C08", "C07C08"], scns, plans_for(tier), RULE_CONC +
                          "; a run that ends with a thread blocked (deadlock) or spinning without any state change "
                          "(livelock) is reported as a stuck event, accepted only if the model has nothing for that thread"
                          + RULE_IMPL, models=[impl_model_stage(["block", "blockdisc"])])
@@ -455,15 +466,15 @@ def check_C10(tier):
 def check_C11(tier):
     caps = caps_for(tier)
     scns = (sc.remove_stream("C11", "bcast", caps=caps) + sc.remove_stream("C11", "bcast", caps=caps[:2], fut=True))
-    return generic_check("C11", tier, ["C11", "C06", "C03", "C01C02", "C08", "C14"], scns, plans_for(tier),
+    return generic_check("C11", tier, ["C11", "C06", "C03", "C01C02", "C08", "C14", "C07C08", "C07C14"], scns, plans_for(tier),
                          RULE_CONC + RULE_IMPL, models=[impl_model_stage(["rmstream", "unsub2"])])
 
 
 def check_C12(tier):
     caps = caps_for(tier)
     scns = sc.population("C12", "bcast", caps=caps) + sc.population("C12", "mpmc", caps=caps)
-    return generic_check("C12", tier, ["C01C02", "C03", "C06", "C04", "C05"], scns, plans_for(tier),
-                         RULE_CONC + RULE_IMPL, models=[impl_model_stage(["popsend", "poprecv"])])
+    return generic_check("C12", tier, ["C01C02", "C03", "C06", "C04", "C05", "C04C05"], scns, plans_for(tier),
+                         RULE_CONC + RULE_IMPL, models=[impl_model_stage(["popsend", "poprecv", "sibdrop"])])
 
 
 def check_C13(tier):
@@ -471,13 +482,14 @@ def check_C13(tier):
     scns = []
     for (fam, fut) in FAMILIES:
         scns += sc.no_receivers("C13", fam, caps=caps[:2], fut=fut)
+    scns += sc.with_epoch_pending(scns)
     depth = 4 if tier == "quick" else 5
     gens = []
     for (fam, fut) in FAMILIES:
         gens.append(dict(family=fam, fut=fut, cap=1, depth=depth, max_streams=3,
                          ops=["send", "start_send", "drop", "unsub", "add_stream", "clone", "recv"]
                          if fut else ["send", "drop", "unsub", "add_stream", "clone", "recv"]))
-    return generic_check("C13", tier, ["C13", "C14"], scns, plans_for(tier), RULE_CONC +
+    return generic_check("C13", tier, ["C13", "C14", "C07C14"], scns, plans_for(tier), RULE_CONC +
                          "; plus all orders of dropping receivers generated from MQAbsGen" + RULE_IMPL, gens=gens,
                          models=[impl_model_stage(["norecv"])])
 
@@ -568,7 +580,7 @@ def check_C14(tier):
     scns += sc.no_receivers("C14n", "bcast", caps=caps, fut=True) + sc.remove_stream("C14r", "bcast", caps=caps, fut=True)
     for s_ in scns:
         s_["livelock"] = 4000
-    return generic_check("C14", tier, ["C14"], scns, plans_for(tier), RULE_CONC +
+    return generic_check("C14", tier, ["C14", "C07C14"], scns, plans_for(tier), RULE_CONC +
                          "; futures handles run on a deterministic executor: a task that got NotReady waits for its "
                          "notification (Notify callback), so a task parked forever is a detected deadlock and is accepted "
                          "only if the model gives it nothing to do; design level: the park/notify protocol model MQFut "
@@ -591,7 +603,7 @@ def check_C15(tier):
                               "into_single", "into_multi", "transform"] + (["add_stream"] if fam == "bcast" else [])))
         gens.append(dict(family=fam, fut=True, cap=2, depth=40, simulate=(100 if tier == "quick" else 1500, 40),
                          ops=alphabet(fam, True), max_senders=3, max_streams=3, max_hps=2))
-    return generic_check("C15", tier, ["C15", "C01C02", "C03", "C05", "C06", "C07", "C09", "C13", "C14", "C18"], scns,
+    return generic_check("C15", tier, ["C15", "C01C02", "C03", "C05", "C06", "C07", "C09", "C13", "C14", "C18", "C07C14"], scns,
                          plans_for(tier), RULE_CONC +
                          "; plus sequential histories mixing start_send/poll_complete/poll with the direct methods "
                          "generated from MQAbsGen (including polls on a fresh empty queue); a poll/start_send that does "
